@@ -272,6 +272,11 @@ class FieldsIO:
         assert field.dtype == self.dtype, f"expected {self.dtype} dtype, got {field.dtype}"
         assert field.size == self.nItems, f"expected {self.nItems} values, got {field.size}"
         with open(self.fileName, "ab") as f:
+            # drop the bytes of an incomplete record (left behind by an interrupted write), such that
+            # the new record starts where nFields, times and readField expect it
+            end = self.hSize + self.nFields * (self.tSize + self.fSize)
+            if self.hSize <= end < self.fileSize:
+                f.truncate(end)
             np.array(time, dtype=T_DTYPE).tofile(f)
             field.tofile(f)
 
